@@ -34,11 +34,11 @@ def configs(tier):
         lambda P: [P["rmax"] > P["rmin"]], unit, lambda r, P: [r > P["rmin"], r < P["rmax"]])
     add("Identity", "IdentityRTransform", [], lambda rt, P: rt.IdentityRTransform(), lambda P: [], pos, lambda r, P: [r > 0])
     add("LinearInfinite", "LinearInfiniteRTransform", ["rmin", "rmax", "b"], lambda rt, P: rt.LinearInfiniteRTransform(P["rmin"], P["rmax"], P["b"]),
-        lambda P: [P["rmax"] > P["rmin"], P["b"] > 0], pos, lambda r, P: [r > P["rmin"]])
+        lambda P: [P["rmax"] > P["rmin"], P["b"] > 0], pos, lambda r, P: [r > P["rmin"], r < P["rmax"]])
     add("Exp", "ExpRTransform", ["rmin", "rmax", "b"], lambda rt, P: rt.ExpRTransform(P["rmin"], P["rmax"], P["b"]),
-        lambda P: [P["rmin"] > 0, P["rmax"] > P["rmin"], P["b"] > 0], pos, lambda r, P: [r > P["rmin"]])
+        lambda P: [P["rmin"] > 0, P["rmax"] > P["rmin"], P["b"] > 0], pos, lambda r, P: [r > P["rmin"], r < P["rmax"]])
     add("Power", "PowerRTransform", ["rmin", "rmax", "b"], lambda rt, P: rt.PowerRTransform(P["rmin"], P["rmax"], P["b"]),
-        lambda P: [P["rmin"] > 0, P["rmax"] > P["rmin"], P["b"] > 0], pos, lambda r, P: [r > P["rmin"]])
+        lambda P: [P["rmin"] > 0, P["rmax"] > P["rmin"], P["b"] > 0], pos, lambda r, P: [r > P["rmin"], r < P["rmax"]])
     add("Hyperbolic", "HyperbolicRTransform", ["a", "b"], lambda rt, P: rt.HyperbolicRTransform(P["a"], P["b"]),
         lambda P: [P["a"] > 0, P["b"] > 0, P["b"] < 1], lambda x, P: [x > 0, P["b"] * x < 1], lambda r, P: [r > 0])
     add("MultiExp", "MultiExpRTransform", ["rmin", "R"], lambda rt, P: rt.MultiExpRTransform(P["rmin"], P["R"]),
